@@ -8,6 +8,10 @@
                                <value> (model: enc (dec v)), or `err` when from_dict raises
     json <value>            -> `ok <value>` : json.loads(json.dumps(value))
     ap_str / ap_parse / ap_copy, loc_copy, spaced, titlekey : text forms and copies
+    hist <Class> <value> <ops>  -> `ok <list>` : the object read from <value>, then the history <ops>
+                               (a list of ["set", attr, v] | ["setitem", i, v] | ["read", kind]) run on
+                               the object state machine; one entry [accepted, to_dict after the step
+                               (, value of the read)] per step; `err` when <value> does not read
 -/
 import Ladybug.DrvCore
 import Ladybug.Model.Serial.Coll
@@ -15,6 +19,7 @@ import Ladybug.Model.Serial.Legend
 import Ladybug.Model.Serial.DesignDay
 import Ladybug.Model.Serial.Wea
 import Ladybug.Model.Serial.Csv
+import Ladybug.Model.Serial.Hist
 
 namespace DrvC07
 open Codec Cal
@@ -147,6 +152,93 @@ def rt (cls : String) (v : PyVal) : String :=
   | "MonthlyPerHour_imm" => okv (((Coll.rd .mph true).dec v).map Coll.enc)
   | _ => "bad-op"
 
+open Hist in
+def readKind? : String → Option Read
+  | "dict" => some .dict
+  | "roundtrip" => some .roundTrip
+  | "copy" => some .copy
+  | _ => none
+
+open Hist in
+def locOp? : PyVal → Option (Op LocSet Read)
+  | .list [.str "set", .str a, v] =>
+    match a with
+    | "latitude" => some (.asg (.lat v))
+    | "longitude" => some (.asg (.lon v))
+    | "time_zone" => some (.asg (.tz v))
+    | "elevation" => some (.asg (.elev v))
+    | "city" => v.str?.map fun s => .asg (.city s)
+    | "state" => v.str?.map fun s => .asg (.state s)
+    | "country" => v.str?.map fun s => .asg (.country s)
+    | "station_id" =>
+      match v with
+      | .none => some (.asg (.station none))
+      | .str s => some (.asg (.station (some s)))
+      | _ => none
+    | "source" => some (.asg (.source v))
+    | _ => none
+  | .list [.str "read", .str k] => (readKind? k).map Op.read
+  | _ => none
+
+open Hist in
+def collOp? : PyVal → Option (Op CollSet Read)
+  | .list [.str "set", .str a, v] =>
+    match a with
+    | "values" => some (.asg (.values v))
+    | "header.metadata" => some (.asg (.mdata v))
+    | _ => none
+  | .list [.str "setitem", .int i, v] => some (.asg (.item i v))
+  | .list [.str "read", .str k] => (readKind? k).map Op.read
+  | _ => none
+
+open Hist in
+def showTrace {σ : Type} (enc : σ → PyVal) (t : List (σ × Out)) : String :=
+  "ok " ++ showVal (.list (t.map fun p =>
+    match p.2 with
+    | .done => .list [.bool true, enc p.1]
+    | .refused => .list [.bool false, enc p.1]
+    | .value v => .list [.bool true, enc p.1, v]))
+
+def collKind? (tag : String) : Option (CollKind × Bool) :=
+  match tag with
+  | "HourlyDiscontinuous" => some (.hourlyDisc, false)
+  | "HourlyContinuous" => some (.hourlyCont, false)
+  | "Daily" => some (.daily, false)
+  | "Monthly" => some (.monthly, false)
+  | "MonthlyPerHour" => some (.mph, false)
+  | "HourlyDiscontinuous_imm" => some (.hourlyDisc, true)
+  | "HourlyContinuous_imm" => some (.hourlyCont, true)
+  | "Daily_imm" => some (.daily, true)
+  | "Monthly_imm" => some (.monthly, true)
+  | "MonthlyPerHour_imm" => some (.mph, true)
+  | _ => none
+
+open Hist in
+def hist (cls : String) (v ops : PyVal) : String :=
+  match ops.list? with
+  | none => "bad-op"
+  | some ol =>
+    if cls = "Location" then
+      match ol.mapM locOp? with
+      | none => "bad-op"
+      | some os =>
+        match Loc.rd.dec v with
+        | none => "err"
+        | some l => showTrace Loc.enc (locM.trace l os)
+    else
+      match collKind? cls, ol.mapM collOp? with
+      | some (k, imm), some os =>
+        match (Coll.rd k imm).dec v with
+        | none => "err"
+        | some c => showTrace Coll.enc (collM.trace c os)
+      | _, _ => "bad-op"
+
+/-- two values in sequence on one line -/
+def two (toks : List String) : Option (PyVal × PyVal) :=
+  match parseVal toks with
+  | some (a, r) => (whole r).map fun b => (a, b)
+  | none => none
+
 def apOfNats : List Nat → Option Codec.AP
   | [a, b, c, d, e, f, g, l] => some ⟨a, b, c, d, e, f, g, l != 0⟩
   | _ => none
@@ -159,6 +251,10 @@ def handle (toks : List String) : String :=
   | "rt" :: cls :: rest =>
     match whole rest with
     | some v => rt cls v
+    | none => "bad-op"
+  | "hist" :: cls :: rest =>
+    match two rest with
+    | some (v, ops) => hist cls v ops
     | none => "bad-op"
   | "json" :: rest =>
     match whole rest with
